@@ -3,23 +3,23 @@
 import json
 claimed = {
  "C01": ("exploration", "Seeded search over batch histories x schedules of merger/persister/compactor x option swarm; a reference ordered map is compared (point reads under both copy modes + full iteration) after every batch and at verify points, in memory, store-backed and with a custom lower level, across reopen.", "4 C01"),
- "C02": ("exploration", "Snapshots, child snapshots, store snapshots and positioned iterators are opened at seeded points and re-read after every later step (batches, merges, persist rounds, forced compactions that unlink their file, collection/store close) against a frozen clone of the model; faults on unmapped memory are trapped.", "4 C02"),
- "C03": ("exploration", "N writers on disjoint key families (incl. their own child collections) and M readers run under seeded interleavings at every synchronisation point; the recorded invoke/return history is checked for per-writer atomic prefixes, real-time visibility and monotonicity, directly and with porcupine.", "4 C03"),
+ "C02": ("exploration", "Snapshots, child snapshots, store snapshots and iterators (also iterators that outlive their snapshot and are sought back after exhaustion) are opened at seeded points and re-read after every later step (batches, merger cycles incl. refused ones, persist rounds incl. ones failing on transient I/O faults, partial and forced compactions that unlink their file, collection/store close in drawn orders) against a frozen clone of the model; faults on unmapped memory are trapped.", "4 C02, 9.2"),
+ "C03": ("exploration", "N writers on disjoint key families (incl. their own child collections) and M readers run under seeded interleavings at every synchronisation point; the recorded invoke/return history is checked for per-writer atomic prefixes, real-time visibility and monotonicity, directly and with porcupine; order-sensitive Merge accumulators per writer are read through snapshots and through direct Collection.Get.", "4 C03, 9.2"),
  "C04": ("exploration", "Store-backed histories with close/reopen at seeded points relative to merger/persister progress and re-drawn store options; the reopened content must be a batch prefix not older than what the store had exposed, and the full content once persistence had caught up.", "4 C04"),
  "C05": ("fault_enumeration", "For every recorded file-op trace every crash point is visited and the images the stated crash model allows (process-kill prefix with the last write torn at boundary bytes; power-loss images from per-file synced state plus subsets of un-synced page blocks and length variants) are reopened with ordinary moss and judged: opens, is a batch prefix, not older than the last synced round, still usable.", "4 C05"),
- "C06": ("fault_enumeration", "For every fault-free trace one re-run per fault-eligible file operation x error kind (EIO, short write, ENOSPC, sync/stat/open/remove/readdir errors) plus bursts and persistent faults; oracles: collection unchanged, store prefix monotone, success implies the directory reopens to that round, failed rounds surfaced through OnError, catch-up after faults stop, final reopen.", "4 C06"),
+ "C06": ("fault_enumeration", "For every fault-free trace one re-run per fault-eligible file operation x error kind (EIO, short write with and without error, ENOSPC, sync/stat/open/remove/readdir errors, failing segment mmap) plus bursts and persistent faults; oracles: collection unchanged, store prefix monotone, success implies the directory as written (and, with syncing, the synced-only power-loss image) reopens to that round, failed rounds surfaced through OnError, catch-up after faults stop, final reopen.", "4 C06"),
  "C07": ("exploration", "Compaction option swarm (disable / level-based partial / forced / idle via simulated clock) x histories x persist-round placement; store content may only move to a later prefix; after a full compaction the footer shape (<=1 segment per collection, no deletions, one entry per live key) and the directory listing are checked.", "4 C07"),
  "C08": ("exploration", "Set/Del/Merge chains with an order-sensitive operator spread by the scheduler over top/mid/base/clean/persisted segments, partial and full compactions, custom lower level and reopen; every read is compared with the model's left fold.", "4 C08"),
  "C09": ("exploration", "The scheduler steers the collection into the snapshot shapes the quantifier names; on each reached snapshot generated Next/SeekTo/Current programs with generated bounds run against a sorted-slice model (the program dimension is seeded generation against a sequential model; the schedule supplies the shapes).", "4 C09"),
  "C10": ("exploration", "At every driver turn Collection.Get, Snapshot.Get (both copy modes) and iteration are compared with each other through the model for every probe key; copied values are re-compared after snapshot, collection and store are closed.", "4 C10"),
  "C11": ("exploration", "Histories over a tree of child names (create, write, delete, recreate, nested, child-only and empty child batches) x schedules x compaction concerns x reopen against a tree-shaped model, on collection snapshots, store snapshots and after reopen.", "4 C11"),
- "C12": ("exploration", "Persist-round histories; SnapshotPrevious walks are compared with the list of contents the store exposed per round since the last compaction; SnapshotRevert targets at seeded depths followed by reopen or OpenCollection and further batches.", "4 C12"),
+ "C12": ("exploration", "Persist-round histories; SnapshotPrevious walks are compared with the list of contents the store exposed per round since the last compaction; SnapshotRevert targets at seeded depths followed by reopen or OpenCollection and further batches; 30 % of the runs carry transient I/O faults (failed rounds, failed full compactions) and a share drives Store.Persist directly with a per-round compaction concern.", "4 C12, 9.2"),
  "C13": ("exploration", "A map-backed lower level applying LowerLevelUpdate by the documented protocol, with seeded failures, bursts, stalls and back-pressure limits; the lower level alone must be a monotone batch prefix, collection = reference at every turn, failed updates re-offered, full content after drain.", "4 C13"),
- "C15": ("exploration", "Handles (snapshots, child snapshots, iterators, store snapshots) are opened and closed at seeded points around rounds, compactions and closes and finally in a PRNG-chosen order; then /proc/self/fd, /proc/self/maps and the directory listing are inspected (GC off so no finalizer hides a leak).", "4 C15"),
- "C16": ("exploration", "Writers against small MaxPreMergerBatches / dirty limits, slow/failing/stalled lower level, sync and async notifications and a Close from another task; deadlock detector, bounded liveness under a fair suffix once faults stop, CurDirtyTopSegments bound, ErrClosed contract.", "4 C16"),
+ "C15": ("exploration", "Handles (snapshots, child snapshots, iterators incl. ones that outlive their snapshot, store snapshots) are opened and closed at seeded points around rounds, compactions and closes and finally in a PRNG-chosen order; then /proc/self/fd, /proc/self/maps and the directory listing are inspected (GC off so no finalizer hides a leak).", "4 C15"),
+ "C16": ("exploration", "Writers against small MaxPreMergerBatches / dirty limits, slow/failing/stalled lower level (custom map or mossStore with transient I/O faults), sync and async notifications incl. bursts and a Close from another task; deadlock detector, bounded liveness under a fair suffix once faults stop, CurDirtyTopSegments bound, ErrClosed contract.", "4 C16"),
  "C17": ("exploration", "The C03/C16 concurrent workloads under the -race build; the scheduler's baton travels over raw pipes and its state lives in go:norace code, so the Go race detector judges moss by moss's own synchronisation; any report whose racing access lies in package moss is a violation.", "4 C17"),
- "C18": ("exploration", "Directories left by clean runs and by crash images (plus junk files) are opened ReadOnly under the option swarm and driven with reads, batches, notifications and closes; byte-for-byte directory equality, no mutating file operation recorded, same content as a read-write open of a copy.", "4 C18"),
- "C19": ("exploration", "Byte-class keys/values (empty, 0x00/0xFF, magic-prefixed, page-boundary lengths), plain and Alloc-built operations, DeferredSort/CachePersisted, compared bit-exactly through memory, merge, persist, compaction and reopen stages the scheduler reaches (stage placement is the simulated dimension; the byte classes are input generation).", "4 C19"),
+ "C18": ("exploration", "Directories left by clean runs and by crash images (plus junk files) are opened ReadOnly under the option swarm and driven with reads, batches, notifications and closes; byte-for-byte directory equality, no mutating file operation recorded, the content served is a batch prefix not older than the last round completed in the directory and equals what a read-write open of a copy serves; one- and two-step open API; junk files and junk sub-directories.", "4 C18, 9.2"),
+ "C19": ("exploration", "Byte-class keys/values (empty, 0x00/0xFF, magic-prefixed, page-boundary lengths), plain and Alloc-built operations (registered at once or late), wide batches, DeferredSort/CachePersisted, compared bit-exactly through memory, merge, persist, compaction and reopen stages the scheduler reaches (stage placement is the simulated dimension; the byte classes are input generation).", "4 C19"),
  "C20": ("exploration", "Stats() is sampled at every driver turn incl. child-only/delete-only batches on mossStore and the map lower level; zero dirty gauges must imply lower level == reference (and a reopen at that instant loses nothing); once drained, the gauges must reach zero under a fair schedule.", "4 C20"),
 }
 techniques = {k: "deterministic simulation: seeded scheduler + reference-model oracle" for k in claimed}
@@ -63,7 +63,7 @@ m = {
  "not_applicable": [
   {"property_id": "C14", "reason": "pure function of (segment bytes, index options, probe key): no schedule, clock, fault or interleaving for a simulator to decide; incidental coverage only via the index knobs in the option swarm (DESIGN.md section 6)"}
  ],
- "notes": "fix: commits in /repo are repairs of genuine defects found by these checks (see known_findings.json and DESIGN.md section 5)."
+ "notes": "fix: commits in /repo are repairs of genuine defects found by these checks (see known_findings.json and DESIGN.md section 9.3); one known finding (KF1, C20)."
 }
 json.dump(m, open("/verif/MANIFEST.json","w"), indent=1)
 print("claimed", len(checks))
